@@ -292,7 +292,12 @@ def env_at(node: ast.AST, func: ast.AST, keep_params: bool = True, loop_elems: b
                     # a reassigned parameter keeps its name (but invalidates what was derived from the old value)
                     env.pop(nm)
             if isinstance(s, ast.AugAssign) and isinstance(s.target, ast.Name):
-                env.pop(s.target.id, None)
+                prev = before.get(s.target.id)
+                if prev is not None and isinstance(s.op, (ast.Add, ast.Sub)) and s.target.id not in params and s.target.id not in opaque:
+                    # `x += e` denotes the value x + e (that it is computed in place is E4's business)
+                    env[s.target.id] = ast.BinOp(left=prev, op=s.op, right=resolved(s.value, before))
+                else:
+                    env.pop(s.target.id, None)
     if loop_elems:
         for name, (_k, it, pos) in loop_bind.items():
             if name in env:
